@@ -196,7 +196,7 @@ func (s *Spec) Validate() (err error) {
 func (gf *GlobalFilter) reload(previousGeneration *GlobalFilter) {
 	var beforePreviousPipeline, afterPreviousPipeline *pipeline.Pipeline
 	// create and update beforePipeline entity
-	if len(gf.spec.BeforePipeline.Flow) != 0 {
+	if len(gf.spec.BeforePipeline.Flow) != 0 || len(gf.spec.BeforePipeline.Filters) != 0 {
 		if previousGeneration != nil {
 			previous := previousGeneration.beforePipeline.Load()
 			if previous != nil {
@@ -209,7 +209,7 @@ func (gf *GlobalFilter) reload(previousGeneration *GlobalFilter) {
 		}
 	}
 	//create and update afterPipeline entity
-	if len(gf.spec.AfterPipeline.Flow) != 0 {
+	if len(gf.spec.AfterPipeline.Flow) != 0 || len(gf.spec.AfterPipeline.Filters) != 0 {
 		if previousGeneration != nil {
 			previous := previousGeneration.afterPipeline.Load()
 			if previous != nil {
